@@ -138,6 +138,11 @@ _DONE = re.compile(rb"Complete: (\d+) sent, (\d+) skipped, (\d+) deleted, (\d+) 
 
 def _cmd(case, dry):
     src, dst = _W["src"], _W["dst"]
+    # a root that is itself a symbolic link to the directory (`current -> releases/7`), named without a trailing slash
+    if case.get("root_link") == "dst":
+        dst = _W["dst"] + ".lnk"
+    elif case.get("root_link") == "src":
+        src = _W["src"] + ".lnk"
     if case["dir"] == "push":
         dst = f"{HOST}:{dst}"
     elif case["dir"] == "pull":
@@ -180,6 +185,12 @@ def run_case(case):
         if os.path.isdir(root):
             os.symlink("pruned/target-that-is-gone", os.path.join(root, "zz-dangling"))
             os.symlink("zz-loop", os.path.join(root, "zz-loop"))
+    for side in ("src", "dst"):
+        lnk = _W[side] + ".lnk"
+        if os.path.lexists(lnk):
+            os.unlink(lnk)
+        if case.get("root_link") == side:
+            os.symlink(_W[side], lnk)
     env = _env(case.get("env"))
     dry = case["dry"]
     before = _snapshot([_W["src"], _W["dst"]]) if dry else None
